@@ -725,6 +725,10 @@ pub fn generate(seed: u64, tier: Tier, p: &Profile) -> Scenario {
                 // the same certificate handed over a second time (refused, or - for a set - held once)
                 plan.pre_tail.push(Op::Cert(c.clone(), None));
             }
+            if wit.is_some() && g.r.chance(1, 10) {
+                // a mistaken first attempt: the plain entry point for a certificate that needs a script witness (refused)
+                plan.pre.push(Op::Cert(c.clone(), None));
+            }
             if wit.is_none() && !g.plutus_ids.is_empty() && g.r.chance(1, 10) {
                 // a mistaken first attempt: a Plutus witness offered for a certificate that needs none (refused)
                 let s = *g.r.pick(&g.plutus_ids.clone());
@@ -773,6 +777,10 @@ pub fn generate(seed: u64, tier: Tier, p: &Profile) -> Scenario {
                 _ => None,
             };
             plan.have += amt as u128;
+            if wit.is_some() && g.r.chance(1, 10) {
+                // a mistaken first attempt without the witness the script account needs (refused)
+                plan.pre.push(Op::Wdr(c.clone(), amt, None));
+            }
             plan.pre.push(Op::Wdr(c, amt, wit));
         }
     }
@@ -840,6 +848,10 @@ pub fn generate(seed: u64, tier: Tier, p: &Profile) -> Scenario {
                 }
                 _ => None,
             };
+            if wit.is_some() && g.r.chance(1, 6) {
+                // a mistaken attempt: a vote of a script voter through the plain entry point (refused; nothing may stay behind)
+                plan.pre.push(Op::Vote { voter: voter.clone(), action: (7, 7), vote: 1, anchor: false, wit: None });
+            }
             plan.pre.push(Op::Vote { voter, action: (g.r.below(3) as u32, g.r.below(3) as u32), vote: g.r.below(3) as u8, anchor: g.r.chance(1, 3), wit });
         }
     }
@@ -1027,8 +1039,9 @@ pub fn generate(seed: u64, tier: Tier, p: &Profile) -> Scenario {
                 // return outputs with fewer / equal / more / different assets than the collateral inputs hold
                 match g.r.below(8) {
                     0 if !assets.is_empty() => assets[0].q = assets[0].q.saturating_sub(1).max(1),
-                    1 if !assets.is_empty() => assets[0].q += 1 + g.r.below(5),
-                    2 => assets.push(AssetQ { p: 2000 + g.r.below(3) as u16, n: b"foreign".to_vec(), q: 1 + g.r.below(100) }),
+                    // (an excess of 2^63 or more now and then: differences that do not fit a signed word)
+                    1 if !assets.is_empty() => assets[0].q += if g.r.chance(1, 3) { (1u64 << 63) + g.r.below(1000) } else { 1 + g.r.below(5) },
+                    2 => assets.push(AssetQ { p: 2000 + g.r.below(3) as u16, n: b"foreign".to_vec(), q: if g.r.chance(1, 3) { (1u64 << 63) + g.r.below(1000) } else { 1 + g.r.below(100) } }),
                     3 if !assets.is_empty() => {
                         let at = g.r.usize_below(assets.len());
                         assets.remove(at);
